@@ -154,6 +154,77 @@ def _property_names(tree):
     return out
 
 
+def lower_match(tree):
+    """Normalisation before any analysis: a `match` statement whose patterns are literals, singletons, class patterns without
+    sub-patterns (`case list():`), captures, wildcards and alternatives of these is rewritten into the if/elif chain it abbreviates
+    (`x == 1`, `x is True`, `isinstance(x, list)`), the subject evaluated once.  Sequence / mapping patterns and class patterns
+    with sub-patterns are left alone (the CFG builder then reports the statement as not modelled)."""
+    counter = [0]
+
+    def test_of(p, subj, binds):
+        if isinstance(p, ast.MatchValue):
+            return ast.Compare(left=subj(), ops=[ast.Eq()], comparators=[p.value])
+        if isinstance(p, ast.MatchSingleton):
+            return ast.Compare(left=subj(), ops=[ast.Is()], comparators=[ast.Constant(value=p.value)])
+        if isinstance(p, ast.MatchClass) and not p.patterns and not p.kwd_patterns:
+            return ast.Call(func=ast.Name(id="isinstance", ctx=ast.Load()), args=[subj(), p.cls], keywords=[])
+        if isinstance(p, ast.MatchAs):
+            if p.pattern is None:
+                if p.name is not None:
+                    binds.append(p.name)
+                return ast.Constant(value=True)
+            t = test_of(p.pattern, subj, binds)
+            if t is not None and p.name is not None:
+                binds.append(p.name)
+            return t
+        if isinstance(p, ast.MatchOr):
+            inner = []
+            sub = [test_of(q, subj, inner) for q in p.patterns]
+            if any(t is None for t in sub) or inner:
+                return None
+            return ast.BoolOp(op=ast.Or(), values=sub)
+        return None
+
+    class Lower(ast.NodeTransformer):
+        def visit_Match(self, node):
+            self.generic_visit(node)
+            if isinstance(node.subject, ast.Name):
+                name, pre = node.subject.id, []
+            else:
+                counter[0] += 1
+                name = "__match_subject_%d" % counter[0]
+                pre = [ast.Assign(targets=[ast.Name(id=name, ctx=ast.Store())], value=node.subject)]
+            subj = lambda: ast.Name(id=name, ctx=ast.Load())
+            chain = None
+            for case in reversed(node.cases):
+                binds = []
+                t = test_of(case.pattern, subj, binds)
+                if t is None:
+                    return node
+                body = [ast.Assign(targets=[ast.Name(id=b, ctx=ast.Store())], value=subj()) for b in binds] + list(case.body)
+                if case.guard is not None:
+                    if binds:
+                        return node         # a guard that reads a capture: keep the statement as it is
+                    t = ast.BoolOp(op=ast.And(), values=[t, case.guard])
+                if isinstance(t, ast.Constant) and t.value is True and chain is None:
+                    chain = body            # trailing wildcard: the else branch
+                    continue
+                new_if = ast.If(test=t, body=body, orelse=(chain if isinstance(chain, list) else ([chain] if chain is not None else [])))
+                chain = new_if
+            out = pre + (chain if isinstance(chain, list) else ([chain] if chain is not None else []))
+            for n in out:
+                ast.copy_location(n, node)
+                for sub_ in ast.walk(n):
+                    if not hasattr(sub_, "lineno"):
+                        ast.copy_location(sub_, node)
+            return out
+    if any(isinstance(n, ast.Match) for n in ast.walk(tree)):
+        Lower().visit(tree)
+        ast.fix_missing_locations(tree)
+        return True
+    return False
+
+
 def inline_object_aliases(tree):
     """Normalisation before any analysis: a local bound exactly once to a plain attribute path (`join = self._urljoin_cache`,
     `scopes = self._scopes_stack`, `enter = scopes.append`) and used only as an *object* -- called, or the receiver of an attribute
@@ -248,6 +319,7 @@ class Mod:
         self.path = path
         self.src = src
         self.tree = ast.parse(src, filename=path)
+        self.match_lowered = lower_match(self.tree)
         self.aliases_inlined = inline_object_aliases(self.tree)
         self.top = {}       # name -> Func | Cls | ast.expr (last module-level binding)
         self.bindings = {}  # name -> list of (value expr | Func | Cls, stmt) all module-level bindings incl. in if/try
@@ -412,7 +484,23 @@ class Prog:
             return common[0] if len(common) == 1 else None
         if qual.startswith("exceptions._Error."):
             base = self.cls("exceptions._Error")
-            return base.methods.get(qual.split(".")[-1])
+            name = qual.split(".")[-1]
+            if name in base.methods:
+                return base.methods[name]
+            if name == "_set":
+                # the method the dispatcher calls on every error to stamp keyword, value, instance and schema (keyword arguments)
+                disp = self.tables.validator_cls.methods.get("iter_errors")
+                for n in walk_body(disp):
+                    if isinstance(n, ast.Call) and isinstance(n.func, ast.Attribute) and {"validator", "instance", "schema"} <= {k.arg for k in n.keywords} \
+                            and n.func.attr in base.methods:
+                        return base.methods[n.func.attr]
+            if name == "_contents":
+                # the method create_from spreads into the constructor: cls(**other.<it>())
+                cf = base.methods.get("create_from")
+                for n in walk_body(cf):
+                    if isinstance(n, ast.Call) and isinstance(n.func, ast.Attribute) and not n.args and n.func.attr in base.methods and n.func.attr != "create_from":
+                        return base.methods[n.func.attr]
+            return None
         if qual == "cli._Outputter":
             # the one class of cli.py that run() names (it builds its reporter through it)
             cs = self._classes_named_in(self.funcs["cli.run"], "cli")
